@@ -8,6 +8,12 @@ package packagedeploy
 // Slice names are content hashes (utils.ComputeFNV32Hash -- an opaque leaf of the model).  The harness
 // translates every real name back to the symbolic form "<ids of the hashed content>.<collision count>" by
 // calling the same hash function, so that the Lean side can treat the hash as an abstract function.
+//
+// REAL hash collisions are scenario input: `coll` declares pairs of slice contents whose FNV-32 hash over the spew
+// dump is identical (found offline by brute force, table c14Collisions; FNV-1a is iterative, so the names collide
+// for every collision count).  The harness checks every declared collision against the real hash function
+// (BAD-COLL otherwise), prints both contents' names under the representative's symbolic name, and aborts with
+// UNDECLARED-COLLISION if two contents that are not declared to collide get the same real name.
 
 import (
 	"context"
@@ -44,6 +50,13 @@ type c14Pre struct {
 	Lbl  bool  `json:"lbl"`  // carries the slices.package-operator.run/owner label
 }
 
+type c14Coll struct {
+	A  []int `json:"a"`  // representative content (object ids)
+	B  []int `json:"b"`  // content with the same hash as A at every collision count; printed under A's name
+	SA []int `json:"sa"` // the sizes of A's / B's objects the collision was found for (must equal sizes[id]:
+	SB []int `json:"sb"` //   the hash covers the padding)
+}
+
 type c14Op struct {
 	Op     string  `json:"op"`     // chunk | deploy | snap | delos
 	Phases [][]int `json:"phases"` // chunk, deploy: phases as lists of object ids
@@ -51,12 +64,13 @@ type c14Op struct {
 }
 
 type c14Scn struct {
-	T     string   `json:"t"`     // always "dep" in this stream
-	Strat string   `json:"strat"` // binpack | each | noop | default (no annotation) | junk (unknown annotation)
-	Limit int      `json:"limit"` // always overwritten with the code's own binpackNextFitStrategyChunkLimit
-	Sizes []int    `json:"sizes"` // object id -> exact JSON length of the object; 0 = json.Marshal fails
-	Pre   []c14Pre `json:"pre"`   // ObjectSlices that exist before the first op (collision oracle)
-	Ops   []c14Op  `json:"ops"`
+	T     string    `json:"t"`     // always "dep" in this stream
+	Strat string    `json:"strat"` // binpack | each | noop | default (no annotation) | junk (unknown annotation)
+	Limit int       `json:"limit"` // always overwritten with the code's own binpackNextFitStrategyChunkLimit
+	Sizes []int     `json:"sizes"` // object id -> exact JSON length of the object; 0 = json.Marshal fails
+	Pre   []c14Pre  `json:"pre"`   // ObjectSlices that exist before the first op (collision oracle)
+	Coll  []c14Coll `json:"coll"`  // real hash collisions among the contents of this scenario
+	Ops   []c14Op   `json:"ops"`
 }
 
 const (
@@ -279,6 +293,18 @@ type c14Ctx struct {
 	objs   map[int]corev1alpha1.ObjectSetObject
 	names  map[string]string // real slice name -> symbolic name
 	hashes map[string]string // key(ids)+"."+c -> real name
+	undecl string            // two contents not declared to collide got the same real name
+}
+
+// canon maps a content to its representative under the declared collisions.
+func (x *c14Ctx) canon(ids []int) []int {
+	k := c14Key(ids)
+	for _, e := range x.scn.Coll {
+		if c14Key(e.B) == k {
+			return e.A
+		}
+	}
+	return ids
 }
 
 func (x *c14Ctx) obj(id int) corev1alpha1.ObjectSetObject {
@@ -309,8 +335,11 @@ func (x *c14Ctx) realName(ids []int, cc int) string {
 	c32 := int32(cc)
 	n := c14Dep + "-" + utils.ComputeFNV32Hash(x.content(ids), &c32)
 	x.hashes[k] = n
-	if _, dup := x.names[n]; !dup {
-		x.names[n] = k
+	sym := c14Key(x.canon(ids)) + "." + strconv.Itoa(cc)
+	if old, dup := x.names[n]; !dup {
+		x.names[n] = sym
+	} else if old != sym && x.undecl == "" {
+		x.undecl = fmt.Sprintf("%s:%s~%s", n, old, sym)
 	}
 	return n
 }
@@ -351,6 +380,28 @@ func c14Valid(s c14Scn) bool {
 	for _, p := range s.Pre {
 		if !okIDs(p.At, false) || !okIDs(p.Objs, false) || p.C < 0 || p.C >= c14MaxC {
 			return false
+		}
+	}
+	for i, e := range s.Coll {
+		if !okIDs(e.A, false) || !okIDs(e.B, false) || c14Key(e.A) == c14Key(e.B) ||
+			len(e.SA) != len(e.A) || len(e.SB) != len(e.B) {
+			return false
+		}
+		for j, id := range e.A {
+			if s.Sizes[id] != e.SA[j] {
+				return false
+			}
+		}
+		for j, id := range e.B {
+			if s.Sizes[id] != e.SB[j] {
+				return false
+			}
+		}
+		for j, f := range s.Coll {
+			// a representative is nobody's alias; one entry per alias
+			if c14Key(f.B) == c14Key(e.A) || (i != j && c14Key(f.B) == c14Key(e.B)) {
+				return false
+			}
 		}
 	}
 	binpack := s.Strat == "binpack" || s.Strat == "default" || s.Strat == "junk"
@@ -470,6 +521,15 @@ func c14Exec(s c14Scn) string {
 	r := newDeploymentReconciler(scheme, c, adapters.NewObjectDeployment, adapters.NewObjectSlice,
 		adapters.NewObjectSliceList, newGenericObjectSetList)
 
+	// every declared collision must be one of the real hash function
+	for _, e := range s.Coll {
+		for cc := 0; cc < 2; cc++ {
+			if x.realName(e.A, cc) != x.realName(e.B, cc) {
+				return fmt.Sprintf("BAD-COLL %s~%s c=%d", c14Key(e.A), c14Key(e.B), cc)
+			}
+		}
+	}
+
 	hasDeploy := false
 	for _, op := range s.Ops {
 		if op.Op != "chunk" {
@@ -510,7 +570,7 @@ func c14Exec(s c14Scn) string {
 	if len(s.Pre) > 0 {
 		c.deploy = &corev1alpha1.ObjectDeployment{
 			ObjectMeta: metav1.ObjectMeta{Name: c14Dep, Namespace: c14NS, UID: c.uid(), ResourceVersion: "1"},
-			Spec: corev1alpha1.ObjectDeploymentSpec{Selector: metav1.LabelSelector{MatchLabels: selector}},
+			Spec:       corev1alpha1.ObjectDeploymentSpec{Selector: metav1.LabelSelector{MatchLabels: selector}},
 		}
 		for _, p := range s.Pre {
 			name := x.realName(p.At, p.C)
@@ -538,6 +598,23 @@ func c14Exec(s c14Scn) string {
 			}
 			c.slices[k] = sl
 		}
+	}
+
+	// ... and no other one may occur: with EachObject every slice content is one object, so every name the
+	// reconcile can derive at collision count 0 is known beforehand (whatever the code under test then does)
+	if s.Strat == "each" {
+		for _, op := range s.Ops {
+			if op.Op == "deploy" {
+				for _, ph := range op.Phases {
+					for _, id := range ph {
+						x.realName([]int{id}, 0)
+					}
+				}
+			}
+		}
+	}
+	if x.undecl != "" {
+		return "UNDECLARED-COLLISION " + x.undecl
 	}
 
 	chunker := x.chunker()
@@ -640,7 +717,43 @@ func c14Exec(s c14Scn) string {
 			outs = append(outs, fmt.Sprintf("O %d", len(c.objectSets)-nForeignSets))
 		}
 	}
+	if x.undecl != "" {
+		return "UNDECLARED-COLLISION " + x.undecl
+	}
 	return strings.Join(outs, ";")
+}
+
+// Real FNV-32 collisions of utils.ComputeFNV32Hash over one-object slice contents []ObjectSetObject{c14Obj(id, size)},
+// found by brute force over (id, size) (birthday search, ~3e5 candidates).  Verified on every run (BAD-COLL).
+var c14Collisions = []struct{ A, SA, B, SB int }{
+	{0, 6394, 6, 17021}, {1, 6394, 7, 17021}, {2, 6394, 4, 17021}, {3, 6394, 5, 17021},
+	{10, 3045, 12, 3660}, {11, 3045, 13, 3660},
+	{7, 7951, 10, 9589}, {3, 7951, 14, 9589},
+}
+
+// c14Palette builds the sizes and collision declarations for the given table entries; all other objects are small.
+func c14Palette(entries ...int) ([]int, []c14Coll) {
+	n := 0
+	for _, i := range entries {
+		e := c14Collisions[i]
+		if e.A >= n {
+			n = e.A + 1
+		}
+		if e.B >= n {
+			n = e.B + 1
+		}
+	}
+	sizes := make([]int, n)
+	for i := range sizes {
+		sizes[i] = 200 + i
+	}
+	var coll []c14Coll
+	for _, i := range entries {
+		e := c14Collisions[i]
+		sizes[e.A], sizes[e.B] = e.SA, e.SB
+		coll = append(coll, c14Coll{A: []int{e.A}, B: []int{e.B}, SA: []int{e.SA}, SB: []int{e.SB}})
+	}
+	return sizes, coll
 }
 
 // ---------------------------------------------------------------- generation
@@ -699,6 +812,12 @@ func c14Tags(s c14Scn, out string) []string {
 	if len(s.Pre) > 0 {
 		add("pre")
 	}
+	if len(s.Coll) > 0 {
+		add("real-hash-collision")
+		if strings.HasPrefix(out, "BAD-COLL") || strings.HasPrefix(out, "UNDECLARED-COLLISION") {
+			add("hash-structure-mismatch")
+		}
+	}
 	return tags
 }
 
@@ -725,6 +844,16 @@ func TestVerifC14Deploy(t *testing.T) {
 			for j := range s.Ops[i].Phases {
 				if s.Ops[i].Phases[j] == nil {
 					s.Ops[i].Phases[j] = []int{}
+				}
+			}
+		}
+		if s.Coll == nil {
+			s.Coll = []c14Coll{}
+		}
+		for i := range s.Coll {
+			for _, p := range []*[]int{&s.Coll[i].A, &s.Coll[i].B, &s.Coll[i].SA, &s.Coll[i].SB} {
+				if *p == nil {
+					*p = []int{}
 				}
 			}
 		}
@@ -890,16 +1019,21 @@ func TestVerifC14Deploy(t *testing.T) {
 	}
 
 	// ---- 4. histories of package updates that add and drop slices (EachObject: cheap, one slice per object)
-	nh := r.Pick(1500, 20000)
-	for i := 0; i < nh; i++ {
+	// fixedSizes == nil: 2..7 small objects of random size; otherwise exactly these objects (collision palettes).
+	history := func(fixedSizes []int) c14Scn {
 		var s c14Scn
 		s.Strat = "each"
 		if rng.Intn(12) == 0 {
 			s.Strat = []string{"noop", "binpack", "default", "junk"}[rng.Intn(4)]
 		}
-		nobj := 2 + rng.Intn(6)
-		for j := 0; j < nobj; j++ {
-			s.Sizes = append(s.Sizes, c14MinSize+rng.Intn(400))
+		nobj := len(fixedSizes)
+		if fixedSizes == nil {
+			nobj = 2 + rng.Intn(6)
+			for j := 0; j < nobj; j++ {
+				s.Sizes = append(s.Sizes, c14MinSize+rng.Intn(400))
+			}
+		} else {
+			s.Sizes = append([]int(nil), fixedSizes...)
 		}
 		randPhases := func() [][]int {
 			np := 1 + rng.Intn(3)
@@ -947,7 +1081,11 @@ func TestVerifC14Deploy(t *testing.T) {
 				s.Ops = append(s.Ops, c14Op{Op: "delos", I: rng.Intn(3)})
 			}
 		}
-		run(s)
+		return s
+	}
+	nh := r.Pick(1500, 20000)
+	for i := 0; i < nh; i++ {
+		run(history(nil))
 	}
 
 	// ---- 5. histories with the real BinpackNextFit strategy and objects of real size (a few hundred KiB)
@@ -1016,6 +1154,51 @@ func TestVerifC14Deploy(t *testing.T) {
 		}
 	}
 
+	// ---- 7. REAL hash collisions: two different one-object slice contents with the same FNV-32 hash.
+	// 7a. per known colliding pair, both orders: second content arrives in a later reconcile (the first one's
+	// slice still referenced by an ObjectSet / by nothing), in the same reconcile (other phase / same phase),
+	// and with the colliding name taken beforehand by either content (ours / somebody else's).
+	for ti := range c14Collisions {
+		sizes, coll := c14Palette(ti)
+		e := c14Collisions[ti]
+		for _, xy := range [][2]int{{e.A, e.B}, {e.B, e.A}} {
+			x, y := xy[0], xy[1]
+			for _, withSnap := range []bool{false, true} {
+				ops := []c14Op{{Op: "deploy", Phases: [][]int{{x}}}}
+				if withSnap {
+					ops = append(ops, c14Op{Op: "snap"})
+				}
+				ops = append(ops, c14Op{Op: "deploy", Phases: [][]int{{y}}}, c14Op{Op: "deploy", Phases: [][]int{{x}, {y}}},
+					c14Op{Op: "delos", I: 0}, c14Op{Op: "deploy", Phases: [][]int{{y}}}, c14Op{Op: "deploy", Phases: [][]int{{x}}})
+				run(c14Scn{Strat: "each", Sizes: sizes, Coll: coll, Ops: ops})
+			}
+			run(c14Scn{Strat: "each", Sizes: sizes, Coll: coll, Ops: []c14Op{
+				{Op: "deploy", Phases: [][]int{{x}, {y}}}, {Op: "deploy", Phases: [][]int{{y}, {x}}}, {Op: "snap"},
+				{Op: "deploy", Phases: [][]int{{x, y}}}, {Op: "deploy", Phases: [][]int{{}}}, {Op: "delos", I: 0},
+				{Op: "deploy", Phases: [][]int{{y, 0, x}}}}})
+			run(c14Scn{Strat: "each", Sizes: sizes, Coll: coll, Ops: []c14Op{
+				{Op: "deploy", Phases: [][]int{{x, y}}}, {Op: "snap"}, {Op: "deploy", Phases: [][]int{{y}}},
+				{Op: "delos", I: 0}, {Op: "deploy", Phases: [][]int{{y}}}}})
+			for _, objs := range [][]int{{x}, {y}} {
+				for _, ctl := range []bool{true, false} {
+					run(c14Scn{Strat: "each", Sizes: sizes, Coll: coll,
+						Pre: []c14Pre{{At: []int{x}, C: 0, Objs: objs, Ctl: ctl, Lbl: true}},
+						Ops: []c14Op{{Op: "deploy", Phases: [][]int{{y}}}, {Op: "deploy", Phases: [][]int{{x}}},
+							{Op: "deploy", Phases: [][]int{{x}, {y}}}}})
+				}
+			}
+		}
+	}
+	// 7b. random histories over eight objects that collide pairwise (0~6, 1~7, 2~4, 3~5)
+	sizes8, coll8 := c14Palette(0, 1, 2, 3)
+	nc := r.Pick(300, 4000)
+	for i := 0; i < nc; i++ {
+		s := history(sizes8)
+		s.Coll = coll8
+		run(s)
+	}
+	r.Extra["real_collision_pairs"] = len(c14Collisions)
+
 	// ---- 6. malformed stream
 	run(c14Scn{Strat: "each", Sizes: []int{200}, Ops: []c14Op{{Op: "deploy", Phases: [][]int{{1}}}}})
 	run(c14Scn{Strat: "each", Sizes: []int{5}, Ops: []c14Op{{Op: "deploy", Phases: [][]int{{0}}}}})
@@ -1023,4 +1206,11 @@ func TestVerifC14Deploy(t *testing.T) {
 	run(c14Scn{Strat: "what", Sizes: []int{200}, Ops: []c14Op{{Op: "deploy", Phases: [][]int{{0}}}}})
 	run(c14Scn{Strat: "each", Sizes: []int{200}, Ops: []c14Op{{Op: "frob"}}})
 	run(c14Scn{Strat: "each", Sizes: []int{200}, Pre: []c14Pre{{At: []int{0}, C: 99, Objs: []int{0}}}, Ops: []c14Op{{Op: "snap"}}})
+	// collision declarations: sizes not the ones the collision holds for; alias of an alias; same content twice
+	run(c14Scn{Strat: "each", Sizes: []int{200, 300}, Coll: []c14Coll{{A: []int{0}, B: []int{1}, SA: []int{200}, SB: []int{301}}},
+		Ops: []c14Op{{Op: "deploy", Phases: [][]int{{0}, {1}}}}})
+	run(c14Scn{Strat: "each", Sizes: []int{200, 300, 400}, Coll: []c14Coll{{A: []int{0}, B: []int{1}, SA: []int{200}, SB: []int{300}},
+		{A: []int{1}, B: []int{2}, SA: []int{300}, SB: []int{400}}}, Ops: []c14Op{{Op: "deploy", Phases: [][]int{{0}, {1}}}}})
+	run(c14Scn{Strat: "each", Sizes: []int{200}, Coll: []c14Coll{{A: []int{0}, B: []int{0}, SA: []int{200}, SB: []int{200}}},
+		Ops: []c14Op{{Op: "deploy", Phases: [][]int{{0}}}}})
 }
